@@ -762,10 +762,10 @@ func (v *VResult) checkFailures(c *Case, tr *Trace, rt *RT, i int, out OpOut, fn
 			v.add(CRootCause, i, "f%d failed with an error but Invoke returned nil", f0.fn)
 			return
 		}
-		if digRootCause(out.Err) != error(want) {
+		if !rt.ownErr(f0.fn, f0.exec, digRootCause(out.Err)) {
 			v.add(CRootCause, i, "f%d failed with %v but RootCause(err) is %v (err: %v)", f0.fn, want, digRootCause(out.Err), out.Err)
 		}
-		if !errorsIs(out.Err, want) {
+		if e2, two := rt.errs2[[2]int{f0.fn, f0.exec}]; !errorsIs(out.Err, want) && !(two && errorsIs(out.Err, e2)) {
 			v.add(CRootCause, i, "errors.Is(err, the error returned by f%d) is false (err: %v)", f0.fn, out.Err)
 		}
 		if out.Class == ClCycle {
@@ -858,7 +858,7 @@ func (v *VResult) checkCallbacks(c *Case, tr *Trace, rt *RT, i int, fn *MFn) {
 				want := rt.errValueOf(ev.Fn, ev.Exec)
 				// the callback may get the function's error itself (dig does
 				// not wrap a decorator's error) or dig's wrapping of it
-				if cb.CBErr == nil || (cb.CBErr != error(want) && digRootCause(cb.CBErr) != error(want)) {
+				if cb.CBErr == nil || !(rt.ownErr(ev.Fn, ev.Exec, cb.CBErr) || rt.ownErr(ev.Fn, ev.Exec, digRootCause(cb.CBErr))) {
 					v.add(CCallback, i, "%v failed with %v but its callback received Error=%v", g, want, cb.CBErr)
 				}
 			case FaultPanic:
